@@ -43,19 +43,17 @@ def allMethods : List String := Gen.C25.tunnelMethods ++ Gen.C25.keylessMethods
 
 /-- the hook `verifyClientIdentity`: `none` = pass (with the possibly upgraded state), `some code` = refuse. -/
 def gate {σ} (W : World σ) (allow : List String) (m : String) (c : Caller) (st : σ) : σ × Option String :=
-  match c with
-  | .noDelegation => (st, some "internal")
-  | c =>
-    if m ∈ allow then (st, none)
-    else match c with
-      | .noDelegation => (st, some "internal")
-      | .noCert => (st, some "unauthenticated")
-      | .badSubject => (st, some "unauthenticated")
-      | .panicSubject => (st, some "panic")
-      | .token t =>
-        match W.tokenRec st t with
-        | .client old => (if old then W.saveToken st t else st, none)
-        | _ => (st, some "unauthenticated")
+  if c = .noDelegation then (st, some "internal")
+  else if m ∈ allow then (st, none)
+  else match c with
+    | .noDelegation => (st, some "internal")
+    | .noCert => (st, some "unauthenticated")
+    | .badSubject => (st, some "unauthenticated")
+    | .panicSubject => (st, some "panic")
+    | .token t =>
+      match W.tokenRec st t with
+      | .client old => (if old then W.saveToken st t else st, none)
+      | _ => (st, some "unauthenticated")
 
 /-- one RPC through the twirp server. -/
 def rpc {σ ρ} (W : World σ) (allow : List String) (handler : String → Caller → σ → σ × ρ)
@@ -78,7 +76,7 @@ def registerIdentity {σ} (W : World σ) (datagramOk saveOk : Bool) (c : Caller)
   match c with
   | .noDelegation => (st, .err "internal")
   | .noCert | .badSubject => (st, .err "unauthenticated")
-  | .panicSubject => (st, .err "panic")
+  | .panicSubject => (st, .err "internal")   -- handler panic: twirp's ensurePanicResponses answers `internal`
   | .token t =>
     if !datagramOk then (st, .err "aborted")
     else if !saveOk then (st, .err "kv")
